@@ -28,7 +28,7 @@ def run(ctx):
     _f3.dtype_lookup(ctx, 'R17.13')
     r1714(ctx, api)
     from . import c14 as _c14b
-    _c14b.r145(ctx, 'R17.16')    # the recorded number of categories is the numeric maximum over the chunks
+    _c14b.consolidate_rule(ctx, 'R17.16')    # the recorded number of categories is the numeric maximum over the chunks
     from . import append_route as _ar
     _ar.forget_then_rebuild_rule(ctx, 'R17.15')
     _cs.general_rules(ctx, 'R17', ['api.ParquetFile', 'api._pre_allocate', 'core.read_row_group_arrays', 'core.read_row_group', 'dataframe'])
